@@ -189,8 +189,13 @@ def cards_case(draw):
                           unique=True))
     form = draw(st.sampled_from(['objects', 'tuple', 'gen', 'text',
                                  'spaces', 'commas', 'ten', 'single']))
+    where = draw(st.sampled_from(['hole', 'board', 'burn']))
+    if where != 'board' and draw(st.integers(0, 3)) == 0:
+        # an unknown card (what a hand history writes for an unseen card):
+        # the card object is falsy, the text is not
+        cards[0] = draw(st.sampled_from(['??', '??', 'A?', '?h']))
     return dict(kind='cards', cards=cards, form=form,
-                where=draw(st.sampled_from(['hole', 'board', 'burn'])),
+                where=where,
                 seed=draw(st.integers(0, 10 ** 6)))
 
 
@@ -203,7 +208,9 @@ def invalid_case(draw):
     return dict(kind='invalid', cls=cls, n=n,
                 i=draw(st.integers(0, n - 1)),
                 x=draw(st.integers(1, 5)),
-                via=draw(st.sampled_from(['list', 'dict', 'scalar'])))
+                via=draw(st.sampled_from(['list', 'dict', 'scalar'])),
+                layout=draw(st.sampled_from(['blinds', 'bring_in'])),
+                autos=draw(st.sampled_from(['full', 'none'])))
 
 
 @st.composite
@@ -472,6 +479,15 @@ def check(case, stats):
                 antes = [1] * n
             elif cls == 'blinds_with_bring_in':
                 bring_in = 1
+            if case.get('layout') == 'bring_in' and cls in (
+                    'negative_ante', 'non_positive_stack',
+                    'too_few_players'):
+                # the same invalid layout in a stud-type game (antes and a
+                # bring-in instead of blinds)
+                blinds = [0] * len(blinds)
+                antes = [a if a < 0 else 1 for a in antes]
+                bring_in = 1
+            autos_ = FULL if case.get('autos', 'full') == 'full' else ()
             via = case['via']
 
             def conv(v):
@@ -488,7 +504,7 @@ def check(case, stats):
                        if bring_in else Opening.POSITION, 2, None),
             )
             try:
-                State(FULL, Deck.STANDARD, (pokerkit.StandardHighHand,),
+                State(autos_, Deck.STANDARD, (pokerkit.StandardHighHand,),
                       streets, BettingStructure.FIXED_LIMIT, True,
                       conv(antes), conv(blinds), bring_in,
                       conv(stacks) if cls != 'non_positive_stack'
